@@ -118,19 +118,34 @@ row order, `C12.pydict_outer_order_irrelevant`) -/
 def engineOf (fw : Fw) : EngineMerge := fun t lk rk ls rs L R =>
   match fw with
   | 0 => ArrowMerge.merge t lk rk ls rs L R
-  | 1 => .ok (PandasMerge.merge t lk rk ls rs L R)
+  | 1 => PandasMerge.merge t lk rk ls rs L R
   | _ => .ok (PyDictMerge.merge t lk rk L R (PyDictMerge.allKeys lk rk L R))
 
 def pick {α : Type} (s : Side) (l r : α) : α := match s with | .left => l | .right => r
 
+/-- `PythonDictFramework.set_column_names` raises `ValueError("Data is empty …")` for an empty list; it runs after every
+step that stores a table in a PythonDict cfw (a source's calculation, a TransformFrameworkStep, a JoinStep) -/
+def pyFw : Fw := 2
+
+def emptyErr : String := "Data is empty or not in expected format. Cannot set column names."
+
 /-- the table the consumer's `calculate_feature` receives: `JoinStep._merge_data` calls
 `merge(cfw.data, from_cfw_data, link.jointype, link.left_index, link.right_index)` – join type and both indexes are passed
-as the link has them, whichever source `cfw.data` is -/
+as the link has them, whichever source `cfw.data` is. The merge runs (and may fail) even when the consumer then reads a
+cfw that does not hold its result. -/
 def consumerTable (engine : Fw → EngineMerge) (r : Req) (p : Plan) (sl sr : List Col) (TL TR : Table) : Except String Table :=
-  match p.reads with
-  | .only s => .ok (pick s TL TR)
-  | .merged =>
-    engine p.execFw r.t r.lidx r.ridx (pick p.first sl sr) (pick p.first.other sl sr) (pick p.first TL TR) (pick p.first.other TL TR)
+  let T1 := pick p.first TL TR
+  let T2 := pick p.first.other TL TR
+  if (r.lf = pyFw ∧ TL.isEmpty) ∨ (r.rf = pyFw ∧ TR.isEmpty) then .error emptyErr
+  else if p.transforms ∧ p.execFw = pyFw ∧ T2.isEmpty then .error emptyErr
+  else
+    match engine p.execFw r.t r.lidx r.ridx (pick p.first sl sr) (pick p.first.other sl sr) T1 T2 with
+    | .error e => .error e
+    | .ok m =>
+      if p.execFw = pyFw ∧ m.isEmpty then .error emptyErr
+      else match p.reads with
+        | .merged => .ok m
+        | .only s => .ok (pick s TL TR)
 
 /-- decidable: the merge receives the link's left table as its left argument -/
 def SidesPreserved (r : Req) : Prop := r.lf = r.rf ∨ (r.t ≠ .right ∧ r.lf ∈ r.cfws)
@@ -138,7 +153,12 @@ def SidesPreserved (r : Req) : Prop := r.lf = r.rf ∨ (r.t ≠ .right ∧ r.lf 
 instance (r : Req) : Decidable (SidesPreserved r) := by unfold SidesPreserved; infer_instance
 
 /-- what C05 needs from C12: under `Pre` the engine returns the relational operator -/
-def MergeMeetsSpec (merge : EngineMerge) (Pre : JoinType → List Col → List Col → Table → Table → Prop) : Prop :=
-  ∀ t lk rk ls rs L R, Pre t lk rk L R → ∃ out, merge t lk rk ls rs L R = .ok out ∧ TableEq out (joinSpec t lk rk ls rs L R)
+def MergeMeetsSpec (merge : EngineMerge)
+    (Pre : JoinType → List Col → List Col → List Col → List Col → Table → Table → Prop) : Prop :=
+  ∀ t lk rk ls rs L R, Pre t lk rk ls rs L R →
+    ∃ out, merge t lk rk ls rs L R = .ok out ∧ TableEq out (joinSpec t lk rk ls rs L R)
+
+/-- an engine that IS the relational operator (used to isolate the planner in the negation witnesses) -/
+def specEngine : Fw → EngineMerge := fun _ t lk rk ls rs L R => .ok (joinSpec t lk rk ls rs L R)
 
 end JoinPlan
